@@ -850,7 +850,11 @@ theorem setTyped_fkeeps (f : Forest) (P : Nat → Prop) (hi : f.Inv) (hc : Close
     intro o ho
     unfold formatTyped at hl
     cases k with
-    | coll => simp only [Option.some.injEq] at hl; subst hl; exact hobjs o (List.mem_of_mem_filter ho)
+    | coll =>
+      simp only at hl
+      split at hl
+      · simp only [Option.some.injEq] at hl; subst hl; exact hobjs o (List.mem_of_mem_filter ho)
+      · cases hl
     | src =>
       simp only at hl
       split at hl
